@@ -199,7 +199,7 @@ void verif_enumerate(verif::Ctx &ctx)
         {"tsdb", {"1a=5", "1b=6", "2a=5", "1a=7", "e1", "e2"}, 2, th ? 4 : 3},
         {"tsl", {"0=1", "0=2", "1=1"}, 2, th ? 5 : 4},
         {"tsls", {"0+1", "0-1", "1+1", "1+2", "1-1"}, 2, th ? 4 : 3},
-        {"tsb", {"a=1", "a=2", "b=1"}, 2, th ? 5 : 4},
+        {"tsb", {"a=1", "a=2", "b=1", "W1:1", "W2:1"}, 2, th ? 4 : 3},
         {"tsbd", {"x=1", "x=2", "s1=5", "s2=6", "e1"}, 2, th ? 4 : 3},
         {"tsw", {"p1", "p2", "p3"}, 1, th ? 8 : 6},
         {"tss", {"+1", "+2", "-1", "-2", "c"}, 3, 2},
